@@ -293,6 +293,15 @@ def _tok_of(t):
     return None, scale
 
 
+def _spine(t):
+    """the terms along the scale/value spine of a reader value (outermost first)."""
+    cur = t
+    while isinstance(cur, App) and ((cur.name in ('binop:Mult', 'binop:Div') and is_num(cur.args[1])) or cur.name == 'attr:value'):
+        yield cur
+        cur = cur.args[0]
+    yield cur
+
+
 _CENTRE_BASE = {}
 
 
@@ -332,6 +341,14 @@ def r3(ctx):
                     if name is None:
                         probs.append(f'{f} is read as {show(got, 80)}')
                         continue
+                    if coordsys == 'image':
+                        # kind of the value handed to the pixel class: sizes are plain numbers (PositiveScalar rejects
+                        # quantities), the angle stays a quantity (ScalarAngle rejects plain numbers)
+                        bare = any(isinstance(x, App) and x.name == 'attr:value' for x in _spine(got))
+                        if f == 'angle' and bare:
+                            probs.append(f'angle reaches {wci.name} as a plain number ({show(got, 60)}): the class requires an angular quantity')
+                        elif f != 'angle' and not bare:
+                            probs.append(f'{f} reaches {wci.name} as a quantity object ({show(got, 60)}): the class requires a plain number')
                     j = int(re.match(r'T(\d+)', name).group(1))
                     if j >= len(args):
                         probs.append(f'{f} is read from slot {j}, which the writer does not fill')
@@ -382,6 +399,16 @@ def r3(ctx):
                             ctx.note(f'{construct}: centre of the parsed region not resolved by the evaluator (not decided)')
                         elif not ('T1' in r1 and 'T2' in r2 and 'T2' not in r1 and 'T1' not in r2):
                             probs.append(f'the reader builds the centre from ({r1[:60]}, {r2[:60]}), not (first, second) bracket entry')
+                    elif coordsys == 'image':
+                        # pixel centre: PixCoord(x = first, y = second bracket entry)
+                        cx = cen.fields.get('x') if isinstance(cen, Obj) else None
+                        cy = cen.fields.get('y') if isinstance(cen, Obj) else None
+                        r1, r2 = show(cx, 300), show(cy, 300)
+                        if cx is None or cy is None or 'Unknown(' in r1 or 'Unknown(' in r2:
+                            raise AnalysisError('C11.R3', construct, f'pixel centre of the parsed region not resolved: {show(cen, 160)}')
+                        if not ('T1' in r1 and 'T2' in r2 and 'T2' not in r1 and 'T1' not in r2):
+                            probs.append(f'the reader builds the pixel centre from (x={r1[:60]}, y={r2[:60]}), not (first, second) '
+                                         'bracket entry')
             if probs:
                 ctx.bad(construct, 'slots-and-units', '; '.join(probs), ser.loc(), {'template': template})
             else:
